@@ -103,6 +103,7 @@ static int lazymode;
 static long send_ping_soon;
 static time_t lastdownstreamtime;
 static time_t lastpingtime;		/* when we last sent a ping */
+static time_t lastquerytime;		/* when we last sent any DNS query */
 static long send_query_sendcnt = -1;
 static long send_query_recvcnt = 0;
 static int hostname_maxlen = 0xFF;
@@ -267,6 +268,7 @@ send_query(int fd, char *hostname)
 #endif
 
 	sendto(fd, packet, len, 0, (struct sockaddr*)&nameserv, nameserv_len);
+	lastquerytime = time(NULL);
 
 	/* There are DNS relays that time out quickly but don't send anything
 	   back on timeout.
@@ -1198,6 +1200,20 @@ client_tunnel(int tun_fd, int dns_fd)
 			   or unrelated DNS replies restart the select timeout
 			   every time; don't let them starve the retransmit
 			   timer, or we never re-send, give up or ping again. */
+			i = 0;
+		}
+
+		if (i > 0 && conn == CONN_DNS_NULL && !is_sending() &&
+		    lastquerytime + selecttimeout < time(NULL)) {
+			/* Datagrams that are not answers to our queries (stray
+			   or forged replies, late errors) restart the select
+			   timeout every time, and tunnel_dns() asks for a new
+			   one of 0.7-0.9 sec after each. More than one of them
+			   per second must not keep us from sending the ping
+			   that is due every selecttimeout seconds: without it
+			   the server has nothing to answer and we would give up
+			   after 60 seconds. What is waiting on the socket is
+			   read in the next round. */
 			i = 0;
 		}
 
